@@ -141,7 +141,7 @@ func pullExchange(ctx context.Context, srv *rsyncd.Server, module string, flags 
 					case <-time.After(20 * time.Millisecond):
 					}
 					mu.Lock()
-					q := time.Since(last) > 120*time.Millisecond
+					q := time.Since(last) > 250*time.Millisecond
 					mu.Unlock()
 					if q {
 						return
